@@ -147,29 +147,39 @@ func init() {
 		return nil
 	})
 
-	// ---- sync/atomic on plain cells (sequentially consistent; a scheduling point is not needed
-	// because switches happen at lock operations and atomics do not block) ----
+	// ---- sync/atomic on plain cells: sequentially consistent; in thread mode every operation is a
+	// scheduling point and an acquire-release edge through its cell ----
 	for _, k := range []struct {
 		name string
 		kind types.BasicKind
 	}{{"Int32", types.Int32}, {"Int64", types.Int64}, {"Uint32", types.Uint32}, {"Uint64", types.Uint64}, {"Uintptr", types.Uintptr}} {
 		k := k
-		reg("sync/atomic.Load"+k.name, func(in *Interp, fr *frame, a []Value) Value { return *(a[0].(*Value)) })
-		reg("sync/atomic.Store"+k.name, func(in *Interp, fr *frame, a []Value) Value { *(a[0].(*Value)) = a[1]; return nil })
+		reg("sync/atomic.Load"+k.name, func(in *Interp, fr *frame, a []Value) Value {
+			in.syncPoint("atomic", a[0].(*Value))
+			return *(a[0].(*Value))
+		})
+		reg("sync/atomic.Store"+k.name, func(in *Interp, fr *frame, a []Value) Value {
+			in.syncPoint("atomic", a[0].(*Value))
+			*(a[0].(*Value)) = a[1]
+			return nil
+		})
 		reg("sync/atomic.Add"+k.name, func(in *Interp, fr *frame, a []Value) Value {
 			p := a[0].(*Value)
+			in.syncPoint("atomic", p)
 			r := in.intBinop(tokenADD, (*p).(Int), a[1].(Int))
 			*p = r
 			return r
 		})
 		reg("sync/atomic.Swap"+k.name, func(in *Interp, fr *frame, a []Value) Value {
 			p := a[0].(*Value)
+			in.syncPoint("atomic", p)
 			old := *p
 			*p = a[1]
 			return old
 		})
 		reg("sync/atomic.CompareAndSwap"+k.name, func(in *Interp, fr *frame, a []Value) Value {
 			p := a[0].(*Value)
+			in.syncPoint("atomic", p)
 			if in.brVal(in.equals(types.Typ[k.kind], *p, a[1])) {
 				*p = a[2]
 				return mkBool(true)
@@ -177,6 +187,13 @@ func init() {
 			return mkBool(false)
 		})
 	}
-	reg("sync/atomic.LoadPointer", func(in *Interp, fr *frame, a []Value) Value { return *(a[0].(*Value)) })
-	reg("sync/atomic.StorePointer", func(in *Interp, fr *frame, a []Value) Value { *(a[0].(*Value)) = a[1]; return nil })
+	reg("sync/atomic.LoadPointer", func(in *Interp, fr *frame, a []Value) Value {
+		in.syncPoint("atomic", a[0].(*Value))
+		return *(a[0].(*Value))
+	})
+	reg("sync/atomic.StorePointer", func(in *Interp, fr *frame, a []Value) Value {
+		in.syncPoint("atomic", a[0].(*Value))
+		*(a[0].(*Value)) = a[1]
+		return nil
+	})
 }
